@@ -381,18 +381,18 @@ inproc_accept_clients(inproc_ep *srv)
 			    ((rv = nni_pipe_alloc_listener(
 			          (void **) &spipe, srv->listener)) != 0)) {
 
+				// Neither pipe was linked to the pair yet, so
+				// both references to it are still ours.
 				if (cpipe != NULL) {
 					nni_pipe_close(cpipe->pipe);
 					nni_pipe_rele(cpipe->pipe);
-				} else {
-					nni_refcnt_rele(&pair->ref);
 				}
 				if (spipe != NULL) {
 					nni_pipe_close(spipe->pipe);
 					nni_pipe_rele(spipe->pipe);
-				} else {
-					nni_refcnt_rele(&pair->ref);
 				}
+				nni_refcnt_rele(&pair->ref);
+				nni_refcnt_rele(&pair->ref);
 				inproc_conn_finish(caio, rv, cli, NULL);
 				inproc_conn_finish(saio, rv, srv, NULL);
 				continue;
